@@ -175,7 +175,11 @@ def check_design(ctx, d, steps, memmap, label):
         used = {n.op_param[1].name: n.op_param[1] for n in res.logic_subset('m@')}
         for nm_, m_ in used.items():
             reg_m = res.memblock_by_name.get(nm_)
-            if reg_m is not None and reg_m is not m_ and sum(1 for x in res.logic_subset('m@') if x.op_param[1].name == nm_ and x.op_param[1] is not m_) == 0:
+            # (a name carried by several memories of the source -- a RomBlock and the copy it makes of itself when its read
+            # ports run out -- has one registry entry; which of them the result still uses is up to dead-logic removal)
+            several_in_src = len({id(x.op_param[1]) for x in src.logic_subset('m@') if x.op_param[1].name == nm_}) > 1
+            if reg_m is not None and reg_m is not m_ and not several_in_src and sum(
+                    1 for x in res.logic_subset('m@') if x.op_param[1].name == nm_ and x.op_param[1] is not m_) == 0:
                 ctx.violation(name + ':memblock_by_name', '%s: get_memblock_by_name(%r) of the result returns a memory object (id %d) that none of '
                               'its nets uses (they use id %d)' % (name, nm_, reg_m.id, m_.id), dict(replay, op=name))
                 ok = False
